@@ -216,4 +216,72 @@ theorem DComp.staticFieldM_ok (n : Nat) (item : Dop) (cs : List DComp)
     rfl
 
 
+/-! ### MULTIPLEXER over a case structure that needs the flag cleared -/
+
+/-- **closure under MULTIPLEXER, restricted components**: the content of the selected case is encoded with the flag of the
+    multiplexer's state, so the multiplexer inherits the restriction of its case structure -/
+theorem DComp.mux_okM (m : MuxLayout) (c : DComp) (mid : Bool) (hc : c.OkM mid) (hm : m.ok c.dop) : (DComp.mux m c).OkM mid := by
+  obtain ⟨hk, hr, hesel, hdsel⟩ := hm
+  have hgk : Good (Pair.ofObj m.keyObj (.int m.lo)) := Good.ofObj m.keyObj hk (.int m.lo) hr
+  have hgk' : Good ((Pair.ofObj m.keyObj (.int m.lo)).guard (· = IVal.int m.lo)) := hgk.guard _ rfl
+  have hG := Comp.ofValueM_ok "" (some m.muxBp) c mid hc (fun _ => True)
+  exact {
+    good := ((hgk'.seq (hc.good.atPos (some m.muxBp))).map _).inOrigin
+    sup_ne_none := by simp [DComp.mux]
+    originFree := OriginFree.inOrigin _
+    dec_originFree := fun _ _ => rfl
+    fits_originFree := fun _ _ => rfl
+    encode_eq := by
+      intro fuel hf s hcb heop hmid
+      obtain ⟨f, rfl⟩ : ∃ f, fuel = f + 2 + 1 := ⟨fuel - 3, by simp only [DComp.mux] at hf; omega⟩
+      let s2 : EncState := { s with origin := s.cursorByte }
+      have hkey : encodeParam (f + 2) (.mk "" (some m.swBp) m.key.bitPos (.value m.keyDop none))
+          (some (.atom (.int m.lo))) s2 true = .ok ((), encStep m.keyObj (.int m.lo) s2) :=
+        encodeParam_obj m.keyObj hk (.int m.lo) hr f s2
+      obtain ⟨s3, hrun3, hcore3⟩ := hG.encode_eq (f + 2) (by simp only [Comp.ofValue, DComp.mux] at hf ⊢; omega)
+        (encStep m.keyObj (.int m.lo) s2) heop hmid True.intro
+      have hrun3' : encodeParam (f + 2) (.mk "" (some m.muxBp) none (.value c.dop none)) (some c.sup)
+          (encStep m.keyObj (.int m.lo) s2) true = .ok ((), s3) := hrun3
+      have hcb3 : s3.cursorBit = 0 := encodeParam_cursorBit _ _ _ _ _ _ hrun3
+      refine ⟨{ s3 with origin := s.origin }, ?_, ?_, hcb3⟩
+      · simp only [DComp.mux]
+        rw [encodeDop_mux_step (f + 2) _ _ _ _ _ _ _ _ _ hcb m.lo c.dop hesel]
+        rw [hkey]
+        simp only []
+        rw [hrun3']
+      · exact ⟨hcore3.1, hcore3.2.1, hcore3.2.2.1, hcore3.2.2.2.1, rfl⟩
+    enc_cursor := by
+      intro s
+      show (c.pair.enc _).cursorByte = _
+      rw [hc.enc_cursor]
+      show s.cursorByte + m.muxBp + c.size = s.cursorByte + (m.muxBp + c.size)
+      omega
+    dec_cursorBit := fun d _ => hc.dec_cursorBit _ rfl
+    dec_msg := fun d => by
+      show (c.pair.dec _).2.msg = d.msg
+      rw [hc.dec_msg]
+      rfl
+    dec_origin := fun _ => rfl
+    decode_eq := by
+      intro fuel hf d hcb hfit hpre
+      obtain ⟨f, rfl⟩ : ∃ f, fuel = f + 2 + 1 := ⟨fuel - 3, by simp only [DComp.mux] at hf; omega⟩
+      let d2 : DecState := { d with origin := d.cursorByte }
+      have hfit' : (m.keyObj.fitsIn d2 ∧
+            (decStep m.keyObj d2).1 = IVal.int m.lo) ∧
+          (Comp.ofValue "" (some m.muxBp) c).pair.fits (decStep m.keyObj d2).2 := hfit
+      obtain ⟨⟨⟨hkfit, hkdec⟩, hkval⟩, hcfit⟩ := hfit'
+      have hkey : decodeParam (f + 2) (.mk "" (some m.swBp) m.key.bitPos (.value m.keyDop none)) d2 true =
+          .ok (.atom (.int m.lo), (decStep m.keyObj d2).2) := by
+        have := decodeParam_obj m.keyObj hk f d2 hkfit hkdec
+        rw [hkval] at this
+        exact this
+      have hcont := hG.decode_eq (f + 2) (by simp only [Comp.ofValue, DComp.mux] at hf ⊢; omega)
+        (decStep m.keyObj d2).2 rfl hcfit hpre
+      have hcont' : decodeParam (f + 2) (.mk "" (some m.muxBp) none (.value c.dop none)) (decStep m.keyObj d2).2 true = _ := hcont
+      simp only [DComp.mux]
+      rw [decodeDop_mux_step (f + 2) _ _ _ _ _ _ _ m.lo _ hkey m.caseName c.dop hdsel]
+      rw [decodeParam_explicit_cursor, hcont']
+      rfl }
+
+
 end OdxVerif.Codec
